@@ -477,6 +477,11 @@ def catalogue(R, t, F):
             add([name, {"other": "Action(self.nodes).map(_alt) (100-x)"}],
                 lambda a, name=name: getattr(a, name)(F.Action(a.nodes.copy(deep=False)).map(_alt)),
                 lambda R, fn=fn: R.same(fn(R.big, 100.0 - R.big)), tags="fmc" if name == "subtract" else "fm")
+            if nd >= 2 and name in ("subtract", "divide"):
+                # the second operand lists the SAME dimensions in another order: operands are matched by dimension name, not by position
+                add([name, {"other": "Action(self.nodes transposed to the reversed dimension order).map(_alt) (100-x)"}],
+                    lambda a, name=name: getattr(a, name)(F.Action(a.nodes.copy(deep=False).transpose(*reversed(a.nodes.dims))).map(_alt)),
+                    lambda R, fn=fn: R.same(fn(R.big, 100.0 - R.big)), tags="f")
 
     # ---- broadcast ------------------------------------------------------------------------------
     if nd < MAX_NDIMS and nnodes * 2 <= MAX_NODES and nelem * 2 <= MAX_ELEMS:
